@@ -613,6 +613,49 @@ func main() {
 		})
 	}
 
+	// impossible times of day on every date: second 60 / 61 / 99, minute 60, hour 24 with minutes, hour 25
+	// on every calendar day 1999-12-30 .. 2031-01-02 (leap-second days, year ends, ordinary days alike), in
+	// the date-times of GetTime, SetTime, GetEvent and the GetStatus event: never a valid date-time
+	{
+		type tod struct{ h, m, s byte }
+		bad := []tod{{0x23, 0x59, 0x60}, {0x00, 0x00, 0x60}, {0x12, 0x00, 0x60}, {0x23, 0x59, 0x61}, {0x23, 0x59, 0x99}, {0x23, 0x60, 0x00}, {0x24, 0x00, 0x01}, {0x24, 0x01, 0x00}, {0x25, 0x00, 0x00}, {0x07, 0x59, 0x60}, {0x15, 0x59, 0x60}}
+		targets := []struct{ op, field string }{{"GetTime", "DateTime"}, {"SetTime", "DateTime"}, {"GetEvent", "Timestamp"}, {"GetStatus", "Timestamp"}}
+		days := []time.Time{}
+		for d := time.Date(1999, 12, 30, 12, 0, 0, 0, time.UTC); d.Before(time.Date(2031, 1, 3, 0, 0, 0, 0, time.UTC)); d = d.AddDate(0, 0, 1) {
+			days = append(days, d)
+		}
+		vk.Parallel(len(targets), func(ti int) {
+			tg := targets[ti]
+			op := spec.OpByName(tg.op)
+			c := newClient()
+			base := ops.BaselineReply(op)
+			args := ops.EchoArgs(op, base)
+			valid := spec.EncodeReply(op, serial, base)
+			off := -1
+			for _, f := range op.Reply {
+				if f.Name == tg.field {
+					off = f.Off
+				}
+			}
+			if off < 0 {
+				r.Machinery("no field %s in the %s reply", tg.field, tg.op)
+				return
+			}
+			var n int64
+			for _, d := range days {
+				for _, t := range bad {
+					b := append([]byte{}, valid...)
+					y := d.Year()
+					copy(b[off:], []byte{spec.BCD2(y / 100), spec.BCD2(y % 100), spec.BCD2(int(d.Month())), spec.BCD2(d.Day()), t.h, t.m, t.s})
+					check(r, c, op, args, b)
+					n++
+				}
+			}
+			r.Count(n)
+			distinct.Add(n)
+		})
+	}
+
 	// request echoes: a set-time reply that repeats (or differs by a second or a day from) the wall
 	// clock the caller asked for, the request time being held in each of 7 Locations - the result is
 	// the decoding of the reply, whatever the request was
